@@ -35,14 +35,17 @@ WATCH = (os.path.join(runner.REPO, 'clastic') + os.sep, '<sinter')
 
 ROUTES = ['ok', 'stream', 'ctx', 'static-small', 'static-big', 'static-empty', 'static-empty', 'static-missing', 'static-oddtime', 'static-oddtime', 'reroute-branch', 'reroute-branch-noslash', 'reroute-branch-dslash', 'reroute-app', 'reroute-app', 'branch', 'missing', 'm405', 'boom',
           'http403', 'meta', 'meta-json', 'gz', 'cache', 'reroute-raise', 'reroute-ep', 'reroute-fn-ep', 'reroute-deco-raise', 'sub-ok', 'empty', 'bytes-big',
-          'static-noext-big', 'static-noext-big', 'static-noext-small', 'branch-ctl1', 'branch-ctl2', 'branch-ctl3', 'http520', 'http520', 'ctx-surrogate', 'ctx-surrogate', 'target-fails-late', 'target-fails-late']
+          'static-noext-big', 'static-noext-big', 'static-noext-small', 'branch-ctl1', 'branch-ctl2', 'branch-ctl3', 'http520', 'http520', 'ctx-surrogate', 'ctx-surrogate', 'target-fails-late', 'target-fails-late',
+          # the static application under a compressing middleware (clients that accept gzip, HEAD, aborted transfers)
+          'static-gz-small', 'static-gz-big', 'static-gz-big']
 PATH = {'ok': '/ok', 'stream': '/stream', 'ctx': '/ctx', 'static-small': '/s/a.txt', 'static-big': '/s/big.bin',
         'static-missing': '/s/nope', 'static-empty': '/s/empty.txt', 'static-oddtime': '/s/odd.txt', 'reroute-branch': '/rb/', 'reroute-branch-noslash': '/rb',
         'reroute-branch-dslash': '/rb//', 'reroute-app': '/r3/some/path', 'branch': '/b', 'missing': '/missing', 'm405': '/g', 'boom': '/boom',
         'http403': '/forbidden', 'meta': '/meta/', 'meta-json': '/meta/json/', 'gz': '/gz', 'cache': '/cache',
         'reroute-raise': '/rr', 'reroute-ep': '/r2', 'reroute-fn-ep': '/r4', 'reroute-deco-raise': '/r5',
         'http520': '/http520', 'ctx-surrogate': '/ctxs', 'target-fails-late': '/rfail', 'branch-ctl1': '/bx/q%01', 'branch-ctl2': '/bx/a%00b%1F', 'branch-ctl3': '/bx/%7F%0B%1B[31m',
-        'static-noext-big': '/s/LICENSE', 'static-noext-small': '/s/README', 'sub-ok': '/in/x', 'empty': '/empty', 'bytes-big': '/big'}
+        'static-noext-big': '/s/LICENSE', 'static-noext-small': '/s/README', 'sub-ok': '/in/x', 'empty': '/empty', 'bytes-big': '/big',
+        'static-gz-small': '/sgz/a.txt', 'static-gz-big': '/sgz/big.bin'}
 METHODS = ['GET', 'GET', 'HEAD', 'POST', 'OPTIONS']
 HEADER_SETS = [{'If-Modified-Since': 'Fri, 01 Jan 2100 00:00:00 GMT'}, {'If-Modified-Since': 'Thu, 01 Jan 1970 00:00:10 GMT'},
                {}, {'Accept': 'text/html'}, {'Accept': 'application/json'}, {'Accept-Encoding': 'gzip'},
@@ -188,7 +191,7 @@ class C13(Check):
     level_text = ('Seeded search over server behaviours x response kinds x wrapper stacks with a protocol monitor; the '
                   'route-kind x method x consumption x file-wrapper grid is swept once per run for a sampled wrapper stack.')
     level_note = 'Trusted: wsgiref.validate as the reading of PEP 3333; the monitor in sim/core/gateway.py.'
-    required_probes = ('reroute-target-fails-after-start-response', 'error-handler-switched-after-construction', 'environ-without-optional-keys', 'query-string-of-raw-bytes', 'range-request-on-static-file', 'wrapper-object-falsy-at-construction', 'filesystem-error-after-the-file-was-opened', 'big-file-without-extension-served', 'reroute-target-with-other-parameter-names', 'wrapper-passes-copy-of-environ', 'wrapper-decorates-start-response', 'empty-file-through-server-file-wrapper', 'reroute-to-wrapped-application', 'conditional-static-304', 'reroute-through-rewritten-path', 'first-requests-concurrent', 'file-released-after-abort', 'file-released-without-iteration', 'head-no-body', 'reroute-same-environ',
+    required_probes = ('head-for-a-file-under-a-compressing-middleware', 'reroute-target-fails-after-start-response', 'error-handler-switched-after-construction', 'environ-without-optional-keys', 'query-string-of-raw-bytes', 'range-request-on-static-file', 'wrapper-object-falsy-at-construction', 'filesystem-error-after-the-file-was-opened', 'big-file-without-extension-served', 'reroute-target-with-other-parameter-names', 'wrapper-passes-copy-of-environ', 'wrapper-decorates-start-response', 'empty-file-through-server-file-wrapper', 'reroute-to-wrapped-application', 'conditional-static-304', 'reroute-through-rewritten-path', 'first-requests-concurrent', 'file-released-after-abort', 'file-released-without-iteration', 'head-no-body', 'reroute-same-environ',
                        'custom-file-wrapper-used', 'debug-500', 'gzip-applied')
 
     def generate(self, seed, tier):
@@ -236,6 +239,8 @@ class C13(Check):
             ops.append(self.gen_op(rng, r, m))
         for _ in range(rng.randint(5, 20)):
             ops.append(self.gen_op(rng, rng.choice(ROUTES), rng.choice(METHODS)))
+        if rng.random() < 0.4:
+            ops.insert(rng.randint(0, len(ops) // 2), {'other_app': rng.choice(['serve-debugger', 'serve-debugger', 'serve-plain', 'construct-debug', 'reraise-handler'])})
         return {'world': 'gateway', 'seed': seed, 'config': cfg, 'ops': ops}
 
     @staticmethod
@@ -328,7 +333,8 @@ class C13(Check):
                   Route('/cache', ok, middlewares=[HTTPCacheMiddleware()]),
                   ('/http520', http520), ('/ctxs', ctx_surrogate, render_json), ('/rfail', RerouteWSGI(failing_target)), ('/rr', rr), ('/r2', RerouteWSGI(target)), ('/r4', RerouteWSGI(legacy_app)), ('/r5', rr5), ('/rb/', RerouteWSGI(target)),
                   ('/r3/<rest*>', RerouteWSGI(target.inner_app)), ('/in', inner), ('/empty', empty), ('/big', big),
-                  ('/in2', Application([('/y', ok)], middlewares=objs('t', cfg.get('sib_wrappers', []))))]
+                  ('/in2', Application([('/y', ok)], middlewares=objs('t', cfg.get('sib_wrappers', [])))),
+                  ('/sgz', Application([('/', StaticApplication(root))], middlewares=[GzipMiddleware()]))]
         app = Application(routes, middlewares=objs('o', cfg['outer_wrappers']), debug=cfg['debug'],
                           slash_mode=cfg.get('slash', 'redirect'))
         if cfg.get('handler_switched'):
@@ -375,6 +381,13 @@ class C13(Check):
                 for step, op in enumerate(plan['ops']):
                     if res.violations:
                         break
+                    if 'other_app' in op:
+                        # something happens to ANOTHER application of the same process (prepared for the development
+                        # server with its debugger, constructed in debug mode, given a re-raising handler)
+                        from sim.props.c08 import C08
+                        C08.other_app(op['other_app'], res)
+                        res.ev(step, 'other_app', op['other_app'])
+                        continue
                     self.one(app, cfg, op, step, res, seam, target)
         finally:
             shutil.rmtree(root, ignore_errors=True)
@@ -501,6 +514,8 @@ class C13(Check):
             res.violate(K + 'file-not-released:%s@%s' % (op['consume'], 'fw-' + str(op.get('fw'))),
                         ctx + ' -> after close() still open: %r' % [os.path.basename(p) for p in leaked], step)
             return
+        if opened and route.startswith('static-gz') and method == 'HEAD' and 'gzip' in op['headers'].get('Accept-Encoding', ''):
+            res.probe('head-for-a-file-under-a-compressing-middleware')
         if opened and route == 'static-noext-big' and ex.code == 200:
             res.probe('big-file-without-extension-served')
         if route in ('reroute-fn-ep', 'reroute-deco-raise') and ex.code == 201:
@@ -582,7 +597,7 @@ class C13(Check):
             res.probe('reroute-same-environ')
             return
         # --- a few status expectations (the rest is C06/C08 territory) -------
-        expect = {'ok': 200, 'stream': 200, 'ctx': 200, 'static-small': 200, 'static-big': 200, 'static-empty': 200, 'static-noext-big': 200, 'static-noext-small': 200, 'static-missing': 404,
+        expect = {'ok': 200, 'stream': 200, 'ctx': 200, 'static-small': 200, 'static-big': 200, 'static-empty': 200, 'static-noext-big': 200, 'static-noext-small': 200, 'static-missing': 404, 'static-gz-small': 200, 'static-gz-big': 200,
                   'branch': 302, 'missing': 404, 'boom': 500, 'http403': 403, 'http520': 520, 'ctx-surrogate': 200, 'meta': 200, 'meta-json': 200, 'gz': 200,
                   'cache': 200, 'sub-ok': 200, 'empty': 200, 'bytes-big': 200}
         want = expect.get(route)
@@ -597,7 +612,7 @@ class C13(Check):
             want = {'redirect': 302, 'rewrite': 200, 'strict': 404}[mode]
             if route != 'branch':
                 res.probe('slash-redirect-of-a-path-with-control-characters')
-        if route in ('meta', 'meta-json', 'static-small', 'static-big', 'static-empty', 'static-noext-big', 'static-noext-small', 'static-missing', 'static-oddtime', 'sub-ok') and mode == 'strict':
+        if route in ('meta', 'meta-json', 'static-small', 'static-big', 'static-empty', 'static-noext-big', 'static-noext-small', 'static-missing', 'static-oddtime', 'sub-ok', 'static-gz-small', 'static-gz-big') and mode == 'strict':
             want = None      # embedded applications under a strict host: slash handling of their mounts is C07 territory
         if route == 'static-oddtime':
             res.probe('static-file-with-unrepresentable-mtime')
